@@ -322,8 +322,21 @@ type SimLogCT struct{ SimLog }
 
 func (s *SimLogCT) StageCommitIndex(idx uint64) error {
 	s.inc.mu.Lock()
+	defer s.inc.mu.Unlock()
+	if s.inc.node.c.Opt.CTEager {
+		// the repository's own InmemCommitTrackingStore persists a staged index at once (not atomically with the
+		// next StoreLogs, as the interface asks): this flavour does the same, as a store write of its own
+		emit, err := s.inc.mutGate("stagecommit", false)
+		if err != nil {
+			return err
+		}
+		if emit {
+			s.inc.disk.commit = idx
+			s.inc.node.c.Tr.Emit("store", s.inc.node.ID, M{"op": "stagecommit", "commit": idx})
+		}
+		return nil
+	}
 	s.inc.staged = idx
-	s.inc.mu.Unlock()
 	return nil
 }
 func (s *SimLogCT) GetCommitIndex() (uint64, error) {
